@@ -5,7 +5,7 @@ from . import common, zwcorr, gen
 
 THEOREMS = ["ZwVerif.C15." + t for t in
             ["default_rule_unreachable_initial", "default_rule_unreachable_string", "default_rule_unreachable_embedded",
-             "c_comment_accepts", "c_comment_in_table", "c_comment_is_skipped", "lexer_rules_tie", "lexer_actions_tie",
+             "c_comment_accepts", "c_comment_in_table", "c_comment_is_skipped", "lexer_rules_tie", "lexer_actions_tie", "tree_types_tie",
              "createCat_flat", "flattenOnce_noop", "escape_table"]]
 
 FILL = [" ", "  ", "\n", "\t", " # c\n", " // c d\n", " /* c */ ", " /***/ ", " /* a **/ ", "\n\n", " /* * / */ "]
